@@ -4,8 +4,9 @@
 EXTENDS Naturals, Sequences, FiniteSets, SequencesExt, TLC, Json, IOUtils
 CONSTANTS MaxLen
 S == UNION {[1..k -> 1..3] : k \in 0..MaxLen}
-\* walpha: the concretisation of the slots (ASCII x, X, y or the non-ASCII case pairs u-umlaut, U-umlaut, zhe)
-Cases == {[aslots |-> a, bslots |-> b, fold |-> f, sep |-> sp, walpha |-> wa] : a \in S, b \in S, f \in BOOLEAN, sp \in 0..1, wa \in {"ascii", "uni"}}
+\* walpha: the concretisation of the slots (ASCII x, X, y; the non-ASCII case pairs u-umlaut, U-umlaut, zhe;
+\* or case pairs whose lower case has another byte length: U+2C65 / U+023A, k / Kelvin sign)
+Cases == {[aslots |-> a, bslots |-> b, fold |-> f, sep |-> sp, walpha |-> wa] : a \in S, b \in S, f \in BOOLEAN, sp \in 0..1, wa \in {"ascii", "uni", "uni2"}}
 VARIABLE x
 Init == x = 0 /\ ndJsonSerialize(IOEnv.OUT, SetToSeq(Cases))
 Next == UNCHANGED x
